@@ -187,7 +187,7 @@ def call_public(ctx, I, dotted, *args, **kw):
                                      "arrays -- e.g. pole vectors after projecting them -- would otherwise see them rescaled)")
                 ctx.ob(rule_m, dotted.split(".")[-1], False, f"argument array(s) {changed} were modified in place", defloc(ctx, dotted))
         arg_ids = {id(a) for a in list(args) + list(kw.values()) if isinstance(a, np.ndarray)}
-        inherited = [e for e in I.trace[t0_:] if e.kind == "dtype-from" and e.data and e.data[0] in arg_ids]
+        inherited = [e for e in I.trace[t0_:] if e.kind == "dtype-from" and e.data and any(i_ in arg_ids for i_ in e.data)]
         if inherited:
             rule_d = f"{ctx.prop}.dtype"
             if rule_d not in ctx.rules_doc:
